@@ -603,7 +603,13 @@ theorem lognormal_welldefined (size : Nat) (h : 0 < size) :
 
 example : 0 < 3 := by decide
 
-/-! ## in place: the operators return the objects they were given, with the same lengths -/
+/-! ## in place: the operators return the objects they were given, with the same lengths
+
+Honest reading: the model builds its result as `{ ind with genes := … }`, so "same `oid` / `soid`" holds by
+construction of the model — these theorems cannot express an implementation that returns a copy.  What they
+add is that lengths are kept and that the fields an operator must not touch (the strategy of the non-ES
+operators) are untouched.  The clause "modify and return the objects they were given" of the property is
+established on the real objects by the harness (`is` tests on every explored call, harness/props/c10.py). -/
 
 theorem blend_in_place (ind1 ind2 : Ind ℝ) (alpha : ℝ) (rs : List ℝ) (o1 o2 : Ind ℝ) (rest : List ℝ)
     (hrun : cxBlend ind1 ind2 alpha rs = .ok (o1, o2, rest)) :
